@@ -118,6 +118,14 @@ def discharge(ob, timeout_ms=None):
     res['solver_s'] = round(dt, 3)
     res['verdict'] = verdict
     if verdict == 'unknown':
+        # a loaded machine makes wall-clock timeouts bite: one retry with three times the budget before anything else
+        so_r, verdict_r, dt_r = _check(ob.assumptions, ob.goal, 3 * tmo)
+        res['solver_s'] = round(res['solver_s'] + dt_r, 3)
+        if verdict_r != 'unknown':
+            so, verdict = so_r, verdict_r
+            res['verdict'] = verdict
+            res['retried'] = True
+    if verdict == 'unknown':
         # sat-finder portfolio: concretise variables at seeded rationals; only `sat` answers are used
         rnd = random.Random(SEED * 7919 + len(ob.name))
         vs = _vars_of(ob.assumptions + [ob.goal])
